@@ -304,6 +304,7 @@ pub fn families(kind: Kind, tier: Tier) -> Vec<Box<dyn Family>> {
             v.push(Box::new(Strided { base: Box::new(level3_pairs(false)), stride: 3 }));
             v.push(Box::new(Strided { base: Box::new(comp_over_level2()), stride: 11 }));
             v.push(Box::new(Strided { base: Box::new(nested_loops(false)), stride: 5 }));
+            v.push(Box::new(many_ranges()));
         }
         (Kind::C03, Tier::Thorough) => {
             v.push(Box::new(core_quick()));
@@ -321,6 +322,7 @@ pub fn families(kind: Kind, tier: Tier) -> Vec<Box<dyn Family>> {
             v.push(Box::new(Truncated { base: Box::new(core_quick()), n: 100_000 }));
             v.push(Box::new(Truncated { base: Box::new(side_family(false)), n: 30_000 }));
             v.push(Box::new(classics()));
+            v.push(Box::new(many_ranges()));
         }
         (_, Tier::Quick) => {
             if matches!(kind, Kind::C19 | Kind::C02) {
@@ -335,6 +337,7 @@ pub fn families(kind: Kind, tier: Tier) -> Vec<Box<dyn Family>> {
             v.push(Box::new(level3_pairs(false)));
             v.push(Box::new(nested_loops(false)));
             v.push(Box::new(comp_over_level2()));
+            v.push(Box::new(many_ranges()));
         }
         (_, Tier::Thorough) => {
             v.push(Box::new(big_classics()));
@@ -354,6 +357,7 @@ pub fn families(kind: Kind, tier: Tier) -> Vec<Box<dyn Family>> {
             v.push(Box::new(level3_slice(true)));
             v.push(Box::new(level3_pairs(true)));
             v.push(Box::new(nested_loops(true)));
+            v.push(Box::new(many_ranges()));
         }
     }
     v
@@ -1070,6 +1074,8 @@ fn check_c19(ch: &mut Chunk<'_>, t: RegLan, rep: &mut Report) -> Vec<String> {
     // manager that has seen many other programs, each of them must still obey its own bound
     let ds_copy: Vec<usize> = ds.clone();
     let mut bounds: Vec<usize> = vec![0, 1, n.saturating_sub(1), n, n + 1, usize::MAX];
+    // bounds that do not fit in 32 bits, with low bits below and above the count
+    bounds.extend([u32::MAX as usize, 1usize << 32, (1usize << 32) + n.saturating_sub(1), (1usize << 32) + n, 1usize << 40, 1usize << 63, usize::MAX - 1]);
     if n <= 8 {
         bounds.extend(0..=n + 1);
     }
